@@ -16,7 +16,6 @@ SQ = "src/cli/linters/structure_quality.py::"
 CS = "src/cli/linters/code_smells.py::"
 OrchT = Rec("Orchestrator", cls="src/orchestrator/core.py::Orchestrator", config=Dict)
 LANGS = ("python", "typescript", "javascript", "rust")       # languages the nesting / srp linters analyse
-OVERRIDDEN = ("python", "typescript", "javascript")           # what _apply_nesting_to_languages iterates over
 
 
 # =================================================================== shared helpers
@@ -62,10 +61,11 @@ class ApplyNestingToLanguages:
     def requires(nesting_config, max_depth):
         return lang_sections_are_dicts(nesting_config)
 
-    def ensures_python_typescript_javascript_sections_updated(nesting_config, max_depth, old):
-        return nesting_config == put_lang(put_lang(put_lang(old.nesting_config, "python", "max_nesting_depth", max_depth),
-                                                   "typescript", "max_nesting_depth", max_depth),
-                                          "javascript", "max_nesting_depth", max_depth)
+    def ensures_every_language_section_updated(nesting_config, max_depth, old):
+        return nesting_config == put_lang(put_lang(put_lang(put_lang(old.nesting_config, "python", "max_nesting_depth", max_depth),
+                                                            "typescript", "max_nesting_depth", max_depth),
+                                                   "javascript", "max_nesting_depth", max_depth),
+                                          "rust", "max_nesting_depth", max_depth)
 
 
 def nesting_section_ok(config):
@@ -88,21 +88,10 @@ class ApplyNestingConfigOverride:
         return implies(max_depth is None, orchestrator.config == old.orchestrator.config)
 
     def ensures_option_wins_for_every_language(orchestrator, max_depth, old):
-        # property text (expected to fail: known finding C05-max-depth-skips-rust)
+        # property text: the option decides the limit for every language the linter analyses (and without a language)
         return implies(max_depth is not None,
                        all(effective_depth(orchestrator.config, lang) == max_depth for lang in LANGS)
                        and effective_depth(orchestrator.config, None) == max_depth)
-
-    def ensures_option_wins_except_rust_override(orchestrator, max_depth, old):
-        # finding-adjusted: the option decides python / typescript / javascript / no-language; a `rust:` sub-section
-        # that sets max_nesting_depth keeps ITS value (the loop in _apply_nesting_to_languages does not list rust)
-        return implies(max_depth is not None,
-                       all(effective_depth(orchestrator.config, lang) == max_depth for lang in OVERRIDDEN)
-                       and effective_depth(orchestrator.config, None) == max_depth
-                       and effective_depth(orchestrator.config, "rust") == (
-                           old.orchestrator.config["nesting"]["rust"]["max_nesting_depth"]
-                           if "nesting" in old.orchestrator.config and "rust" in old.orchestrator.config["nesting"]
-                           and "max_nesting_depth" in old.orchestrator.config["nesting"]["rust"] else max_depth))
 
     def ensures_other_sections_untouched(orchestrator, max_depth, old):
         return implies(max_depth is not None,
